@@ -19,7 +19,7 @@ func init() {
 		Run:    runC04})
 }
 
-var c04Patterns = []string{"equal", "all-below", "sgx0-above", "sgx15-above", "pce-above", "tdx0-above", "tdx1-above", "tdx2-above", "tdx15-above"}
+var c04Patterns = []string{"equal", "all-below", "sgx0-above", "sgx15-above", "pce-above", "tdx0-above", "tdx1-above", "tdx2-above", "tdx15-above", "sgx0-below+sgx15-above", "tdx2-below+tdx15-above", "sgx-all-below+pce-above"}
 
 // c04Level builds a level from a comparison pattern relative to the platform.
 func c04Level(p world.Platform, tee []byte, pattern int, status string) world.Level {
@@ -53,6 +53,19 @@ func c04Level(p world.Platform, tee []byte, pattern int, status string) world.Le
 		tdx[2]++
 	case 8:
 		tdx[15]++
+	case 9: // an earlier component below, a later one above: only a component-wise comparison rejects
+		sgx[0]--
+		sgx[15]++
+	case 10:
+		tdx[2]--
+		tdx[15]++
+	case 11:
+		for i := range sgx {
+			if sgx[i] > 0 {
+				sgx[i]--
+			}
+		}
+		pce++
 	}
 	return world.Level{Tcb: world.Tcb{Sgx: world.CompsOf(sgx), Pcesvn: world.IntP(pce), Tdx: world.CompsOf(tdx)}, TcbDate: "2029-06-01T00:00:00Z", TcbStatus: status}
 }
